@@ -1,6 +1,8 @@
 package sim
 
 import (
+	"bytes"
+	"sync/atomic"
 	"encoding/binary"
 	"encoding/json"
 	"fmt"
@@ -44,6 +46,8 @@ type Instance struct {
 
 	NotifyCh chan bool
 
+	LeaseStepDowns atomic.Int32 // times this incarnation logged a step-down by the lease check
+
 	StartErr   error
 	StartPanic any
 	StartHung  bool
@@ -55,6 +59,17 @@ type Instance struct {
 	cfgOKOps   int
 	LastState  raft.RaftState
 	States     []StateObs
+}
+
+// warnWatcher receives the server's log lines of level Warn and above; it
+// only counts the one that names the lease check as the cause of a step-down.
+type warnWatcher struct{ in *Instance }
+
+func (ww *warnWatcher) Write(p []byte) (int, error) {
+	if bytes.Contains(p, []byte("failed to contact quorum of nodes, stepping down")) {
+		ww.in.LeaseStepDowns.Add(1)
+	}
+	return len(p), nil
 }
 
 type StateObs struct {
@@ -98,6 +113,7 @@ func (w *World) Start(id string, opts NodeOpts, bound time.Duration) *Instance {
 	w.Mu.Unlock()
 
 	conf := DefaultConf(id)
+	conf.Logger = hclog.New(&hclog.LoggerOptions{Name: id, Level: hclog.Warn, Output: &warnWatcher{in}})
 	if opts.LogOutput != nil {
 		conf.Logger = hclog.New(&hclog.LoggerOptions{Name: id, Level: hclog.Debug, Output: opts.LogOutput})
 	}
